@@ -106,6 +106,9 @@ func c17Cases(seed uint64, tier string) []core.Case {
 			if pid == "C19" {
 				k = i
 			}
+			if pid == "C09" {
+				k = (i*7 + 7) % len(cs) // (a case on an EVM-style chain first: its failed IBC sends carry the ibc module's error text)
+			}
 			out = append(out, core.MkCase(fmt.Sprintf("C17-%s-%d", pid, i), c17Spec{Seed: rng.Uint64(), Kind: "workload", Prop: pid, Case: cs[k], Reps: reps}))
 		}
 	}
